@@ -194,6 +194,9 @@ class SInt:
 
     # ------------------------------------------------------------------ linear arithmetic
     def _lin(self, o, so):
+        if isinstance(o, float):
+            from sxl.sfloat import SDyad
+            return (SDyad(self, 0) + o) if so == 1 else (SDyad(self, 0) - o)
         o = SInt.of(o)
         if o is NotImplemented:
             return o
@@ -240,7 +243,14 @@ class SInt:
     def _mul_sym(self, o):
         la, ha = self.interval(); lb, hb = o.interval()
         if la < 0 or lb < 0:
-            raise NotImplementedError("signed symbolic*symbolic")
+            # sign-magnitude: |a|*|b| with the sign restored by a multiplexer
+            sa, sb = tobit(self < 0), tobit(o < 0)
+            P = SInt.of(abs(self) * abs(o))
+            N = SInt.of(-P)
+            neg = bxor(sa, sb)
+            w = max(P.width(), N.width())
+            r = SInt.from_tc([bite(neg, x, y) for x, y in zip(N.tc(w), P.tc(w))])
+            return r.norm() if r.__class__ is SInt else r
         x, y = self.ubits(), o.ubits()
         w = len(x) + len(y)
         acc = [0] * w
@@ -248,6 +258,13 @@ class SInt:
             row = [0] * i + [band(xb, yb) for xb in x]
             acc = _add_bits(acc, row, w)
         return SInt.from_bits(acc)
+
+    def __truediv__(self, o):
+        from sxl.sfloat import SDyad
+        if isinstance(o, int) and not isinstance(o, bool) and o > 0 and o & (o - 1) == 0:
+            return SDyad(self, o.bit_length() - 1)
+        from sxl.explore import Inconclusive
+        raise Inconclusive("true division of a symbolic int by %r (only powers of two are exact dyadics)" % (o,))
 
     def __lshift__(self, k):
         return self * (1 << int(k))
@@ -462,10 +479,9 @@ class SInt:
         return SBytes(octs)
 
     def bit_length(self):
+        """bit length of a value known to be non-negative on this path (forks)"""
         from sxl import explore
         lo, hi = self.interval()
-        if lo < 0:
-            raise NotImplementedError
         for k in range(hi.bit_length() + 1):
             if explore.decide(self < (1 << k)):
                 return k
